@@ -387,6 +387,74 @@ def norm_op(op, roles):
     return op.split(" ")[0]
 
 
+# ---------------------------------------------------------------------- what the translator says the manager does
+_EXPECT = {}
+OBSERVABLE = ("ShutdownWorkers", "QClose CallQ", "QJoinThread CallQ", "QClose ResultQ", "WakeupClose", "FlagBroken", "FlagShutdown",
+              "KillWorkers")
+
+
+def expected_manager_ops():
+    """operation lists read off the source by tr/units.py:gen_ledger, projected on what the simulation can observe"""
+    if not _EXPECT:
+        try:
+            sys.path.insert(0, os.path.join(os.path.dirname(os.path.dirname(HERE)), "tr"))
+            import units
+            man = units.gen_ledger(os.environ.get("VERIF_REPO", "/repo"))[1]["ops"]
+            jei = [o for o in man["join_executor_internals"] if o in OBSERVABLE]
+            tb = []
+            for o in man["terminate_broken"]:
+                tb += jei if o == "JoinInternals" else ([o] if o in OBSERVABLE else [])
+            fsd = man["flag_executor_shutting_down"]
+            _EXPECT.update(ok=True, jei=jei, tb=tb, fsd_plain=[o for o in fsd if o in OBSERVABLE],
+                           fsd_kill=[o for o in fsd if o in OBSERVABLE] + (["KillWorkers"] if any("KillWorkers" in o for o in fsd) else []))
+        except BaseException as e:  # noqa  (translator refused: nothing to compare with)
+            _EXPECT.update(ok=False, error=repr(e)[:200])
+    return _EXPECT
+
+
+def manager_op_anomalies(r, env):
+    """the order in which the manager thread really called things vs the generated lists"""
+    exp = expected_manager_ops()
+    out = []
+    if not exp.get("ok"):
+        return out
+    for rec in env.all_executors:
+        mt = rec.get("mgr_actor")
+        if mt is None or mt.alive() or getattr(mt, "crashed", False):
+            continue
+        names = {id(rec["flags"]): None, id(rec["cq"]): " CallQ", id(rec["rq"]): " ResultQ", id(rec.get("wakeup")): ""}
+        seq = []
+        for key, tok in r.oplog:
+            if key in names and tok != "user:shutdown":
+                seq.append(tok + (names[key] or "") if tok in ("QClose", "QJoinThread") else tok)
+        # split at the entry points
+        i = 0
+        while i < len(seq):
+            tok = seq[i]
+            if tok == "enter:terminate_broken":
+                got = [t for t in seq[i + 1:] if not t.startswith("enter:")]
+                if got != exp["tb"]:
+                    out.append(("terminate_broken", got, exp["tb"]))
+                break
+            if tok.startswith("enter:flag_executor_shutting_down"):
+                j = i + 1
+                got = []
+                while j < len(seq) and not seq[j].startswith("enter:"):
+                    got.append(seq[j]); j += 1
+                want = exp["fsd_kill"] if tok.endswith(":1") else exp["fsd_plain"]
+                if got != want:
+                    out.append(("flag_executor_shutting_down", got, want))
+                i = j
+                continue
+            if tok == "enter:join_executor_internals":
+                got = [t for t in seq[i + 1:] if not t.startswith("enter:")]
+                if got != exp["jei"]:
+                    out.append(("join_executor_internals", got, exp["jei"]))
+                break
+            i += 1
+    return out
+
+
 # ---------------------------------------------------------------------- monitors
 BROKEN = ("BrokenProcessPool", "TerminatedWorkerError")
 
@@ -594,6 +662,10 @@ def analyze(plan, r):
                 if isinstance(c, tuple) and c[0] in BROKEN + ("ShutdownExecutorError",) and r.kinds[tid] != "sysexit" \
                         and not any(a[0] in ("break", "shutdown_cur") or (a[0] == "get" and a[4]) for th in plan["threads"] for a in th):
                     add(["C09"], "task-lost", f"factory-task-failed got[{c[0]}] ctx[{ctx}]", f"task {tid}")
+    # 9d. the manager's real call order vs the operation lists generated from the source (ties tr/units.py:gen_ledger to the runtime)
+    if not crashes:
+        for fn, got, want in manager_op_anomalies(r, env):
+            add(["C20", "C01", "C02", "C05", "C06"], "manager-ops-differ", f"manager-ops-differ[{fn}] ctx[{ctx}]", f"executed {got}, generated list says {want}")
     # 9c. statements proved on the control model (coq/Model/Pool.v), watched on the real objects after every step
     for name, where in getattr(r, "inv_violations", {}).items():
         if name == "manager-gone-with-pending" and (crashes or r.status != "quiescent"):
